@@ -1,5 +1,5 @@
 (* C05 (1): unanimity and order.  A phase is left towards the next one only when EVERY participant
-   has confirmed it (callbacks), and the regenerated tables admit no way from the entry state to
+   has confirmed it (callbacks), and the regenerated tables leave no way from the entry state to
    signing-ready that avoids any of the phases or takes them in another order (graph check by
    computation on Gen.Tables, re-done on every run). *)
 From Coq Require Import String List NArith ZArith Bool Lia.
